@@ -2,7 +2,7 @@
    The tensor of a grid cell is reported as [[xx, xy], [xy, yy]] (symmetric by construction of the model's triple). *)
 From Coq Require Import List Reals.
 From Coq Require Import Permutation.
-From Forsys Require Import Model.Num Model.Stress Proofs.StressProofs.
+From Forsys Require Import Model.Num Model.Stress Proofs.StressProofs Model.StressGrid Proofs.StressGridProofs.
 Import ListNotations.
 
 Theorem C18_sigma_zero_when_empty : forall edges, sigma ROps [] edges = (0%R, 0%R, 0%R).
@@ -37,6 +37,30 @@ Theorem C18_sigma_order_independent : forall cells cells' edges edges', Permutat
   sigma ROps cells edges = sigma ROps cells' edges'.
 Proof. exact sigma_order_independent. Qed.
 
+(* the grid (Model/StressGrid.v): a grid cell's tensor is the tensor above of exactly the cells whose centre lies within the averaging
+   radius of the grid centre (squared distance <= min_distance^2) and of exactly the interfaces that have one of those cells as first or
+   second cell; where no cell centre lies within the radius it is the zero matrix; a larger radius selects no fewer cells; the bin edges
+   run equally spaced from the smallest to the largest cell-centre coordinate and the grid centres are the mid-points of the bins,
+   strictly inside that range *)
+Theorem C18_grid_cell_is_sigma_of_the_cells_within_the_radius : forall md2 cx cy (cells : list (cellrec (T := R))) edges,
+  exists sel esel, grid_cell_sigma ROps md2 cx cy cells edges = sigma ROps (map snd sel) (map snd esel) /\
+    (forall c, In c sel <-> In c cells /\ ((cx - fst (snd (fst c))) * (cx - fst (snd (fst c))) + (cy - snd (snd (fst c))) * (cy - snd (snd (fst c))) <= md2)%R) /\
+    (forall e, In e esel <-> In e edges /\ exists c, In c sel /\ (fst (fst c) = fst (fst e) \/ fst (fst c) = snd (fst e))).
+Proof. exact grid_cell_is_sigma_of_selection. Qed.
+Theorem C18_zero_where_no_centre_within_radius : forall md2 cx cy (cells : list (cellrec (T := R))) edges,
+  (forall c, In c cells -> (md2 < (cx - fst (snd (fst c))) * (cx - fst (snd (fst c))) + (cy - snd (snd (fst c))) * (cy - snd (snd (fst c))))%R) ->
+  grid_cell_sigma ROps md2 cx cy cells edges = (0%R, 0%R, 0%R).
+Proof. exact no_centre_within_radius_zero. Qed.
+Theorem C18_larger_radius_selects_no_fewer : forall md2 md2' cx cy (cells : list (cellrec (T := R))) c,
+  (md2 <= md2')%R -> In c (select_cells ROps md2 cx cy cells) -> In c (select_cells ROps md2' cx cy cells).
+Proof. exact larger_radius_selects_more. Qed.
+Theorem C18_bins_uniform : forall lo hi g, (0 < g)%nat ->
+  bin_edges ROps lo hi g = map (fun i => (lo + INR i * ((hi - lo) / INR g))%R) (seq 0 (S g)) /\
+  bin_centres ROps (bin_edges ROps lo hi g) = map (fun i => (lo + (2 * INR i + 1) * ((hi - lo) / (2 * INR g)))%R) (seq 0 g).
+Proof. intros lo hi g Hg. exact (conj (bin_edges_uniform lo hi g Hg) (bin_centres_uniform lo hi g Hg)). Qed.
+Theorem C18_grid_centres_inside : forall lo hi g c, (0 < g)%nat -> (lo < hi)%R -> In c (bin_centres ROps (bin_edges ROps lo hi g)) -> (lo < c < hi)%R.
+Proof. exact bin_centres_inside. Qed.
+
 Print Assumptions C18_sigma_zero_when_empty.
 Print Assumptions C18_sigma_zero_area.
 Print Assumptions C18_sigma_linear.
@@ -46,3 +70,8 @@ Print Assumptions C18_key_collision_refuted.
 Print Assumptions C18_principal_are_eigenvalues.
 Print Assumptions C18_principal_isotropic.
 Print Assumptions C18_sigma_order_independent.
+Print Assumptions C18_grid_cell_is_sigma_of_the_cells_within_the_radius.
+Print Assumptions C18_zero_where_no_centre_within_radius.
+Print Assumptions C18_larger_radius_selects_no_fewer.
+Print Assumptions C18_bins_uniform.
+Print Assumptions C18_grid_centres_inside.
